@@ -71,6 +71,8 @@ def run(ck):
     zero_bad = [(c, r) for c, r in oracle_bad if any("non-zero log-probability" in x or "logical_not" in x or "no mask supplied" in x for x in r["oracle"])]
     ck.oblige("correspondence:per-pixel log-prob is exactly 0 at masked pixels; good = logical_not(user mask); no mask => all used", "correspondence",
               not zero_bad, json.dumps(zero_bad[0][1]["oracle"]) if zero_bad else "")
+    ck.oblige("oracle:masked pixels carry no information (density unchanged when masked data / rms change), polarity True = ignore, on the real losses and fitters", "correspondence",
+              not oracle_bad, json.dumps(oracle_bad[0][1]["oracle"][:2]) if oracle_bad else "")
     ck.samples += [{"case": c, "masked_pixels": sum(1 for row in r["inputs"]["good"] for g in row if not g), "oracle": r["oracle"]} for c, r in list(zip(cases, res))[:5]]
     ck.trusted += ["Coq 8.16.1 kernel; Coquelicot (is_derive) and Reals axioms",
                    "translator units Losses / InputChecks / BuildModel",
